@@ -194,3 +194,27 @@ package set
 //@     invariant forall k int :: 0 <= k && k < len(rangeslice) ==> has(sets[0].members, rangeslice[k])
 //@     invariant forall x string :: has(sets[0].members, x) ==> (exists k int :: 0 <= k && k < len(rangeslice) && rangeslice[k] == x)
 //@     invariant -1 <= rangeindex && rangeindex < len(rangeslice) && allocated(rangeslice) && allocated(intersection) && allocated(intersection.members)
+
+// SMEMBERS key / SMISMEMBER key member [member ...]: arity, absent key, wrong type, success on a set, purity. (The element
+// list of the reply is built by string concatenation in a loop; it is not specified.)
+//@ func handleSMEMBERS props C16,C12,C13
+//@   requires generic.henv(params)
+//@   assumes own-cmd: len(params.Command) >= 2 ==> disjointarr(params.Command, $srv.keysWithExpiry.keys[dbof(params.Context)])
+//@   assumes stored-wf: len(params.Command) >= 2 && isset(tval(params, tkey(params))) ==> twf(asset(tval(params, tkey(params))))
+//@   ensures {C16} arity: len(params.Command) != 2 ==> result1 != nil
+//@   ensures {C16} absent: len(params.Command) == 2 && !old(tlive(params, tkey(params))) ==> result1 == nil && bstr(result0) == "*0\r\n"
+//@   ensures {C16} wrongtype: len(params.Command) == 2 && old(tlive(params, tkey(params))) && !old(isset(tval(params, tkey(params)))) ==> result1 != nil
+//@   ensures {C16} answers: len(params.Command) == 2 && onset(params, tkey(params)) ==> result1 == nil
+//@   ensures {C13,C16} pure: tpure(params)
+//@   ensures {C13,C16} content: tsame(params, tkey(params))
+
+//@ func handleSMISMEMBER props C16,C12,C13
+//@   requires generic.henv(params)
+//@   assumes own-cmd: len(params.Command) >= 2 ==> disjointarr(params.Command, $srv.keysWithExpiry.keys[dbof(params.Context)])
+//@   assumes stored-wf: len(params.Command) >= 2 && isset(tval(params, tkey(params))) ==> twf(asset(tval(params, tkey(params))))
+//@   ensures {C16} arity: len(params.Command) < 3 ==> result1 != nil
+//@   ensures {C16} absent: len(params.Command) >= 3 && !old(tlive(params, tkey(params))) ==> result1 == nil
+//@   ensures {C16} wrongtype: len(params.Command) >= 3 && old(tlive(params, tkey(params))) && !old(isset(tval(params, tkey(params)))) ==> result1 != nil
+//@   ensures {C16} answers: len(params.Command) >= 3 && onset(params, tkey(params)) ==> result1 == nil
+//@   ensures {C13,C16} pure: tpure(params)
+//@   ensures {C13,C16} content: tsame(params, tkey(params))
